@@ -417,6 +417,43 @@ def run(ck: Check):
                          f"{got.count(cname)} time(s) {got}, to the subscriber of the neighbouring type {nb}: {other}",
                          {"type": t, "class_in_api_proto": cname, "delivered_as": got, "neighbour": nb, "neighbour_got": other})
     dist["ids_delivered_by_protocol_text"] = by_text
+    # ---- one callback subscribed to SEVERAL types in one call (as subscribe_states does), next to subscribers of single types:
+    # "delivered to every subscriber registered FOR THAT TYPE" - registrations of different types never share anything
+    multi = 0
+    TA, TB, TC = pb.SensorStateResponse, pb.BinarySensorStateResponse, pb.SwitchStateResponse
+    for first_multi in (True, False):
+        for remove_order in ("single-first", "multi-first", "none"):
+            client, conn, tr, loop = live.make_client()
+            log = []
+            def mk(tag):
+                return lambda m, tag=tag: log.append((tag, type(m).__name__))
+            regs = [("M", (TA, TB, TC)), ("a", (TA,)), ("b2", (TB, TC))]
+            if not first_multi:
+                regs = regs[1:] + regs[:1]
+            rem = {tag: conn.add_message_callback(mk(tag), types) for tag, types in regs}
+            def deliver(cls):
+                log.clear()
+                live.feed_message(conn, cls(key=1))
+                return sorted(log)
+            want = {TA: [("M", "SensorStateResponse"), ("a", "SensorStateResponse")],
+                    TB: [("M", "BinarySensorStateResponse"), ("b2", "BinarySensorStateResponse")],
+                    TC: [("M", "SwitchStateResponse"), ("b2", "SwitchStateResponse")]}
+            got = {c: deliver(c) for c in (TA, TB, TC)}
+            ok = all(got[c] == sorted(want[c]) for c in want)
+            if remove_order != "none":
+                rem["a" if remove_order == "single-first" else "M"]()
+                gone = "a" if remove_order == "single-first" else "M"
+                got2 = {c: deliver(c) for c in (TA, TB, TC)}
+                ok = ok and all(got2[c] == sorted(x for x in want[c] if x[0] != gone) for c in want)
+                got = {"before": {c.__name__: v for c, v in got.items()}, "after_removing_" + gone: {c.__name__: v for c, v in got2.items()}}
+            else:
+                got = {c.__name__: v for c, v in got.items()}
+            multi += 1
+            if not ok:
+                ck.violation(f"c12:multi-type-subscription:{first_multi}:{remove_order}", "subscribers M (three types in one call), a (one of them) "
+                             f"and b2 (the other two), registered {'M first' if first_multi else 'M last'}: deliveries {got}",
+                             {"multi_first": first_multi, "remove": remove_order, "deliveries": str(got)})
+    dist["multi_type_subscriptions"] = multi
     # ---- the device's own requests are answered from the moment the session can receive: during the hello / login
     # exchange as well as afterwards (real connect path over SimNet)
     during = connect_phase_requests(ck)
